@@ -2930,10 +2930,12 @@ fn write_reference_immediately(
 
 /// Compute reverse complement of a sequence
 fn reverse_complement_sequence(seq: &[u8]) -> Vec<u8> {
-    use crate::kmer::reverse_complement;
+    // Only A/C/G/T are complemented; N and the other IUPAC codes are kept as they are
+    // (same rule as the precomputed `data_rc` and the decompressor), otherwise they
+    // would all come back as N after a round trip.
     seq.iter()
         .rev()
-        .map(|&base| reverse_complement(base as u64) as u8)
+        .map(|&base| if base > 3 { base } else { 3 - base })
         .collect()
 }
 
